@@ -3,6 +3,10 @@
 import json, subprocess
 
 CHECKS = {
+ "C01": dict(engine="hybsim", category="exploration", design="§5 C01, §3.1-3.2",
+   text="hybsim: HybridCache on a simulated device + io engine (feature verif) with all foyer tasks on one harness-driven runtime; the generated history owns the device-io completion order (hold / complete i-th / drain), memory eviction, handle drops, graceful reopen. Versioned self-describing values; oracle = per-key write timeline with linearization windows: a lookup may return a miss or a version that no other write definitely supersedes before the lookup started; values validate bit for bit. 60k (quick) / 1.5M (thorough) random histories over both policies, five algorithms, tombstone on/off, none/zstd/lz4, flushers/reclaimers 1-2, 4-8 blocks, sizes 0 .. per-entry max + 1.",
+   note="Documented carve-outs are modelled, not ignored: shedding limits (cases discarded and counted), placement class fixed per key, no tombstone log => reopen may bring back removed/updated entries, no flush_on_close => reopen may bring back older versions. Two design-level known findings (disk-only entries with a held handle; LRU-pinned entry at close) are tolerated by structural signature. Single OS thread: task interleavings at await points are explored, not data races.",
+   technique="model-based property testing on a deterministic simulated device with harness-owned io schedule (proptest random), timeline/linearization oracle"),
  "C05": dict(engine="memsim", category="exploration", design="§5 C05",
    text="Bounded-exhaustive enumeration (all op sequences to depth 3/4 over a 26..29-op alphabet, five algorithms, several capacity/shard grids) plus proptest random histories up to 120/300 ops, judged after every step by an event-driven reference model: usage()==sum of findable weights, entries()==count, every eviction necessary, bound re-established unless all others pinned / new entry oversize, clear()=>0, shard capacities sum to capacity (capdist, exhaustive over capacity 0..12 x shards 1..6 x resize). Exploration, exhaustive for small bounds: the right level for an all-sequences arithmetic invariant with an exact oracle.",
    note="Single-threaded histories (every step quiescent). Victim choice is learned from listener events (validated by contains/usage), not predicted; capacity() getter after resize not asserted.",
@@ -78,6 +82,8 @@ def main():
         "engines": [
             {"name": "memsim", "path": "/verif/harness/core/src/memsim.rs", "serves_properties": ["C05", "C13", "C14", "C16", "C17", "C18"],
              "kind_free_text": "single-threaded interpreter for foyer::Cache histories + event-driven reference model (memoracle.rs) + eviction reference models (evmodel.rs)"},
+            {"name": "hybsim", "path": "/verif/harness/core/src/hybsim.rs", "serves_properties": ["C01"],
+             "kind_free_text": "deterministic interpreter for HybridCache histories on a simulated device/io engine (simdev.rs) with harness-owned io completion order; oracles in hyboracle.rs; independent format reader fmtparse.rs"},
             {"name": "fetchsim", "path": "/verif/harness/core/src/fetchsim.rs", "serves_properties": ["C06", "C11", "C17"],
              "kind_free_text": "manual executor for get_or_fetch histories: harness futures for disk lookup / origin fetch, harness-driven runtime, protocol state machine as oracle"},
         ],
